@@ -59,12 +59,34 @@ def rule_PC2(ctx, rep):
     for p in prim:
         model.func(p)
     nprim = 0
+    # call sites of every function, to decide whether a plain (synchronous) helper only ever runs inside such a coroutine
+    callers = {}
+    for k2, fn2 in model.funcs.items():
+        for s2 in fa.walk[k2].sites:
+            if s2.kind in ('call', 'ref', 'method'):
+                for t2 in s2.targets:
+                    callers.setdefault(t2, []).append((k2, s2.kind))
+
+    def runs_under_owner(k0, seen=()):
+        """a synchronous helper that is only ever *called* (never passed around, registered or spawned), and only from coroutines
+        with their own program counter or from other such helpers: its statements run at the caller's program point"""
+        f0 = model.funcs[k0]
+        if f0.kind == 'pc':
+            return True
+        if f0.kind != 'sync' or k0 in seen or k0 in prim:
+            return False
+        cs = callers.get(k0, [])
+        if not cs and f0.qualname in model.helpers.get(f0.module, ()):
+            return True          # a helper whose every call was replaced by its body (H1): its statements were analysed where they run
+        return bool(cs) and all(kind == 'call' and runs_under_owner(kc, seen + (k0,)) for kc, kind in cs)
     for k, fn in sorted(model.funcs.items()):
         for s in fa.walk[k].sites:
             if s.kind in ('call', 'ref') and set(s.targets) & prim:
                 nprim += 1
                 if fn.kind == 'pc':
                     rep.ok('PC2', fn, s.node, 'message primitive used inside a coroutine with its own program counter')
+                elif s.kind == 'call' and runs_under_owner(k):
+                    rep.ok('PC2', fn, s.node, 'message primitive used in a synchronous helper that is only called from coroutines with their own program counter')
                 else:
                     rep.bad('PC2', fn, s.node, f'message primitive used in a {fn.kind} function: its label is '
                             'the ambient/caller program counter, not one owned by this protocol instance')
